@@ -46,6 +46,7 @@ def scan(path, owns_text=()):
             in_vc = False; vc_kind = None; tag_props = None; tag_id = None
         elif s.startswith("//@vc "):
             vc_origin = s[len("//@vc "):]
+            if "/contracts/" in vc_origin: vc_origin = "contracts/" + vc_origin.split("/contracts/", 1)[1]   # independent of where /verif is checked out
         else:
             m = TAG_RE.match(line)
             if m:
